@@ -105,8 +105,16 @@ def run_banner(rid, kind, listing, siblings, packname):
     tree = dc.Tree(kind, layout, order=order)
     rec = {"t": "banner", "id": rid, "listing": [cps(n) for n in listing], "siblings": [cps(n) for n in siblings], "packname": cps(packname),
            "st": "ok", "ans": ["none", dc.NONE]}
+    cwd = None
     try:
-        sp = SimfilePack(tree.path(packname), filesystem=tree.fs)
+        where = tree.path(packname)
+        if rid % 4 == 1:
+            # the pack named by a path RELATIVE to the current directory / the filesystem's root ("My Pack", "./My Pack", "My Pack/")
+            if kind == "native":
+                cwd = os.getcwd()
+                os.chdir(tree.root)
+            where = [packname, "./" + packname, packname + "/"][(rid // 4) % 3]
+        sp = SimfilePack(where, filesystem=tree.fs)
         tree.listed.clear()
         b = sp.banner()
         if tree.listed:
@@ -124,6 +132,8 @@ def run_banner(rid, kind, listing, siblings, packname):
     except Exception as e:  # noqa
         rec["st"] = type(e).__name__
     finally:
+        if cwd is not None:
+            os.chdir(cwd)
         tree.close()
     return rec
 
